@@ -388,7 +388,7 @@ theorem run_append (σ : Srv) (a b : List Event) :
     | error p => rfl
     | ok σ₁ => exact ih σ₁
 
-/-- every cached file was admitted under the limits now in force -/
+/-- every cached file passed the size check under the limits now in force -/
 def CacheOK (σ : Srv) : Prop := ∀ k ∈ σ.cache, includeSize k ≤ σ.settings.limits.maxFileSizeBytes
 
 theorem includeFrom_ok (L D : Int) (fuel k : Nat) (cache : List Nat)
@@ -417,7 +417,7 @@ theorem includeFrom_ok (L D : Int) (fuel k : Nat) (cache : List Nat)
         · exact h1
         · exact ih _ _ h1
 
-/-- the verdicts of a load do not depend on which admissible files are cached -/
+/-- the verdicts of a load do not depend on which of the files that pass the size check are cached -/
 theorem includeFrom_verdict (L D : Int) (fuel k : Nat) (c1 c2 : List Nat)
     (h1 : ∀ x ∈ c1, includeSize x ≤ L) (h2 : ∀ x ∈ c2, includeSize x ≤ L) :
     (includeFrom L D fuel k c1).1 = (includeFrom L D fuel k c2).1 ∧
